@@ -867,11 +867,16 @@ type ef_type =
   nat -> graph -> config -> nat list -> (nat -> load option) -> nat -> bool
   -> bool -> plan -> plan res
 
-(** val step_res_gen :
-    ef_type -> graph -> config -> (nat -> load option) -> state -> event ->
-    state res **)
+(** val exit_failure : nat **)
 
-let step_res_gen ef g cfg loads s ev =
+let exit_failure =
+  S O
+
+(** val step_res_gen :
+    bool -> ef_type -> graph -> config -> (nat -> load option) -> state ->
+    event -> state res **)
+
+let step_res_gen stuck_fixed ef g cfg loads s ev =
   let p = s.s_plan in
   (match ev with
    | EvStart (e, prio) ->
@@ -988,7 +993,14 @@ let step_res_gen ef g cfg loads s ev =
                if negb (more_to_do p)
                then Some (O, MSuccess)
                else if (&&) (Nat.eqb s.s_pending O) (negb (can_start cfg s))
-                    then Some (s.s_exit,
+                    then Some
+                           ((if Nat.eqb s.s_fa O
+                             then s.s_exit
+                             else if Nat.ltb s.s_fa cfg.c_k
+                                  then s.s_exit
+                                  else if stuck_fixed
+                                       then exit_failure
+                                       else s.s_exit),
                            (if Nat.eqb s.s_fa O
                             then MSubcommandFailed
                             else if Nat.ltb s.s_fa cfg.c_k
@@ -1020,7 +1032,7 @@ let step_res_gen ef g cfg loads s ev =
     graph -> config -> (nat -> load option) -> state -> event -> state res **)
 
 let step_res =
-  step_res_gen edge_finished
+  step_res_gen true edge_finished
 
 (** val step :
     graph -> config -> (nat -> load option) -> state -> event -> state option **)
